@@ -17,7 +17,7 @@
                         (cache written BEFORE the re-read of the child numbers)     → `opNewAddr`
     ntfnshandler.go     NewNtfnsHandler (bestBlock := synced-to), Start (fast-forward, catch-up,
                         initTaskChan), processConnectedBlock (bestBlock only on success),
-                        filterTx unmined path, OnRemoveWallet, asyncRemove, worker  → `bootVol`, `start`, `opBlock`, `opRecvTx`, …
+                        filterTx unmined path, OnRemoveWallet, asyncRemove (one phase), worker → `bootVol`, `start`, `opBlock`, `recvTx`, …
   A storage fault at call index j of an operation aborts the enclosing Update: the batch is dropped
   (C11's guarantee, taken as the key/value layer's contract), volatile effects made before the
   failing call stay, then the operation's own repair code runs.
@@ -261,22 +261,21 @@ def opRemoveMark (n : Nat) (w : Wid) : Op :=
                    else .ok ({ P with led := { P.led with status := AMap.put P.led.status w { st with removed := true } } }, V)⟩],
     post := fun _ _ _ V => { V with tasks := V.tasks ++ [.rem w] } }
 
-/-- asyncRemove step 1: unspent index, address records, deposit histories and balance of the wallet -/
-def opRemove1 (n : Nat) (w : Wid) : Op :=
-  { phases := [⟨n, fun P V =>
-      let s := P.led
-      .ok ({ P with led := { s with unspent := s.unspent.filter (fun e => e.1.1 ≠ w),
-                                      addrs := s.addrs.filter (fun e => e.1.1 ≠ w),
-                                      game := s.game.filter (fun e => e.1.wallet ≠ w),
-                                      pendGame := s.pendGame.filter (fun e => e.1.1 ≠ w),
-                                      balance := AMap.erase s.balance w } }, V)⟩] }
-
-/-- asyncRemove final step (the `finish` iteration): DeleteWalletStatus, DeleteKeystore (bucket, then
-    cache and current wallet INSIDE the transaction); on failure UpdateManagedKeystores reloads the
-    cache entry from the committed store. The credit / transaction record clean-up that precedes it
+/-- asyncRemove, the `finish` iteration (ONE transaction since the removal was made one phase):
+    removeWalletIndexes (unspent index, address records, deposit histories and balance of the wallet),
+    DeleteWalletStatus, DeleteKeystore (bucket, then cache and current wallet INSIDE the
+    transaction); on failure UpdateManagedKeystores reloads the cache entry from the committed store.
+    The credit / transaction record clean-up that precedes it in the same and in earlier transactions
     (RemoveRelevantTx) is C08's subject and not modelled here. -/
-def opRemoveFinal (nA nB : Nat) (w : Wid) : Op :=
+def opRemoveFinal (nI nA nB : Nat) (w : Wid) : Op :=
   { phases := [
+      ⟨nI, fun P V =>
+        let s := P.led
+        .ok ({ P with led := { s with unspent := s.unspent.filter (fun e => e.1.1 ≠ w),
+                                        addrs := s.addrs.filter (fun e => e.1.1 ≠ w),
+                                        game := s.game.filter (fun e => e.1.wallet ≠ w),
+                                        pendGame := s.pendGame.filter (fun e => e.1.1 ≠ w),
+                                        balance := AMap.erase s.balance w } }, V)⟩,
       ⟨nA, fun P V => .ok ({ P with led := { P.led with status := AMap.erase P.led.status w } }, V)⟩,
       ⟨nB, fun P V => if (AMap.get V.keys w).isNone then .error .notFound
                       else .ok ({ P with ks := AMap.erase P.ks w }, V)⟩,
@@ -360,13 +359,13 @@ def crash (env : Env) (n : Nat) (P : PStore) : BootRes :=
 
 -- ------------------------------------------------------------------ expectations on the regenerated facts (tie B)
 
-/-- the call-site table the model is built on: one Update per operation; Start's and asyncRemove's
-    second site sit in a loop (one commit per fast-forwarded height / per removal step) -/
+/-- the call-site table the model is built on: one Update per operation; the sites of Start and of
+    asyncRemove sit in a loop (one commit per fast-forwarded height / per removal batch) -/
 def expectedSites : List (String × String × Nat × Nat) := [
   ("masswallet/ntfnshandler.go", "NtfnsHandler.OnRemoveWallet", 1, 0),
   ("masswallet/ntfnshandler.go", "NtfnsHandler.Start", 1, 1),
   ("masswallet/ntfnshandler.go", "NtfnsHandler.asyncImport", 1, 0),
-  ("masswallet/ntfnshandler.go", "NtfnsHandler.asyncRemove", 2, 1),
+  ("masswallet/ntfnshandler.go", "NtfnsHandler.asyncRemove", 1, 1),
   ("masswallet/ntfnshandler.go", "NtfnsHandler.onRelevantTx", 1, 0),
   ("masswallet/ntfnshandler.go", "NtfnsHandler.processConnectedBlock", 1, 0),
   ("masswallet/wallet.go", "NewWalletManager", 1, 0),
